@@ -3,6 +3,7 @@ package harness
 import (
 	"context"
 	"crypto/tls"
+	"encoding/json"
 	"fmt"
 	"io"
 	"io/fs"
@@ -85,6 +86,7 @@ func c08cEnv() {
 		if err := w.RegisterWithControlService(cs); err != nil || cs.t == nil {
 			panic(fmt.Sprint("no work command type: ", err))
 		}
+		n.SetClientTLSConfig("tlsc", &tls.Config{MinVersion: tls.VersionTLS12}, nil)
 		c08cW, c08cN, c08cType = w, n, cs.t
 	})
 }
@@ -161,6 +163,58 @@ func runC08Conc(cmds []string, r *xrun) []Violation {
 		}
 	}
 	// clean up
+	for _, id := range w.ListKnownUnitIDs() {
+		w.ReleaseUnit(id, true)
+	}
+	return out.Viol
+}
+
+// C19: a `work list` (and a second one) interleaved with a remote submission that carries secret parameters,
+// at every hook point of the submission: no reply ever shows a marker value.
+func runC19Conc(lists int, r *xrun) []Violation {
+	c08cEnv()
+	var out CaseOut
+	w := c08cW
+	s := newScheduler()
+	s.extQuiet = 60 * time.Millisecond
+	const marker = "SECRETMARK777X"
+	replies := make([]string, lists)
+	var subErr error
+	s.add("submit", func() {
+		cc, err := c08cType.InitFromJSON(map[string]interface{}{"subcommand": "submit", "node": "othernode", "worktype": "plain", "tlsclient": "tlsc", "secret_k": marker, "plain": "v"})
+		if err != nil {
+			subErr = err
+			return
+		}
+		_, subErr = cc.ControlFunc(context.Background(), c08cN, stubCfo{})
+	})
+	for i := 0; i < lists; i++ {
+		i := i
+		s.add(fmt.Sprintf("list%d", i), func() {
+			cc, err := c08cType.InitFromString("list")
+			if err != nil {
+				return
+			}
+			rep, err := cc.ControlFunc(context.Background(), c08cN, stubCfo{})
+			b, _ := json.Marshal(rep)
+			replies[i] = fmt.Sprintf("%s %v", b, err)
+		})
+	}
+	sr := s.run(r)
+	if sr.deadlock {
+		out.violate("secret:concurrent-deadlock", "submit || list: nobody can move: %s; schedule %v", sr.stuck, sr.trace)
+		s.abandon()
+		c08cOnce = sync.Once{}
+		return out.Viol
+	}
+	if subErr != nil {
+		out.violate("harness:c19-conc-submit", "submission failed: %v", subErr)
+	}
+	for i, rep := range replies {
+		if strings.Contains(rep, marker) {
+			out.violate("secret:disclosed:during-submission", "`work list` #%d answered during the submission shows the secret value: %s; schedule %v", i, trunc(rep, 300), sr.trace)
+		}
+	}
 	for _, id := range w.ListKnownUnitIDs() {
 		w.ReleaseUnit(id, true)
 	}
